@@ -61,16 +61,17 @@ def seq_eq(rs, as_, rflags=None):
     """rflags: per reference entry, True if the machine may have skipped it (pending at a handled error, T3)."""
     if rflags is None:
         return len(rs) == len(as_) and all(ev_eq(r, a) for r, a in zip(rs, as_))
-    i = j = 0
-    while i < len(rs):
-        if j < len(as_) and ev_eq(rs[i], as_[j]):
-            i += 1
-            j += 1
-        elif rflags[i]:
-            i += 1
-        else:
-            return False
-    return j == len(as_)
+    # can as_ be obtained from rs by dropping some of the optional entries? (small sequences: plain memoised search)
+    import functools
+
+    @functools.lru_cache(maxsize=None)
+    def go(i, j):
+        if i == len(rs):
+            return j == len(as_)
+        if j < len(as_) and ev_eq(rs[i], as_[j]) and go(i + 1, j + 1):
+            return True
+        return bool(rflags[i]) and go(i + 1, j)
+    return go(0, 0)
 
 
 def structural_problems(comp):
